@@ -1513,6 +1513,8 @@ func checkC18(w *World) {
 	w.include(P, "C01", "R01.13") // sub-expressions are evaluated from the same context node, position and root
 	w.include(P, "C04", "R04.6")  // string()/number() as a step convert the context result like their one-argument forms
 	w.include(P, "C07", "R07.5")  // the zero-argument string functions read the context result itself
+	w.include(P, "C13", "R13.1")  // a sub-query leaves the document and the bindings as they were for the next one
+	w.include(P, "C01", "R01.14") // the principal node type of a step does not depend on the steps evaluated before it
 }
 
 // selectorLocal: the selector treats every node of the incoming node-set independently: the parameter is only
